@@ -641,19 +641,35 @@ func (p c12) Run(c core.Case) core.Result {
 		enc, _ := json.Marshal(msg)
 		enc = append(enc, '\n')
 		follow := c12smallStream(2)
-		for k := c.Int("lo", 0); k < c.Int("hi", 0) && k < len(enc); k++ {
+		pre := c12smallStream(1)
+		for kk := 2 * c.Int("lo", 0); kk < 2*c.Int("hi", 0) && kk/2 < len(enc); kk++ {
+			// odd kk: the head of the envelope arrives in the same read as a complete predecessor (the decoder holds it
+			// in its read-ahead buffer when the next Receive's context expires)
+			k, withPre := kk/2, kk%2 == 1
 			if k == 0 {
 				continue
 			}
 			tp := rig.NewTransportPair(faultconn.Options{}, nil, nil)
-			_, _ = tp.CA.Write(enc[:k])
+			if withPre {
+				_, _ = tp.CA.Write(append(append([]byte{}, pre.all...), enc[:k]...))
+				pctx, pc := context.WithTimeout(context.Background(), 5*time.Second)
+				penv, perr := tp.B.Receive(pctx)
+				pc()
+				if perr != nil {
+					r.Violate("C12/lost-benign/rxexpire", fmt.Sprintf("the complete envelope that precedes a partial one in the same read was not handed over: %v", perr))
+				} else if ok, where := gen.Eq(pre.envs[0], penv); !ok {
+					r.Violate("C12/corrupted/rxexpire", fmt.Sprintf("the envelope preceding a partial one differs at %s", where))
+				}
+			} else {
+				_, _ = tp.CA.Write(enc[:k])
+			}
 			ctx, cancel := context.WithTimeout(context.Background(), 12*time.Millisecond)
 			env, err := tp.B.Receive(ctx)
 			cancel()
 			r.Evals++
 			r.Count("runs", 1)
 			r.Count("rxexpire_runs", 1)
-			fpset[fmt.Sprintf("rxexpire|%d", k)] = true
+			fpset[fmt.Sprintf("rxexpire|%d|%v", k, withPre)] = true
 			if err == nil {
 				// complete already? only legitimate if the value was complete at k
 				if ok, where := gen.Eq(msg, env); !ok {
